@@ -535,7 +535,7 @@ pub fn run(session: &Session) -> i32 {
         session.run_enum(&C10, cases);
     }
     if !session.stopped() {
-        session.run_tapes(&C10, session.tier.of(60_000, 3_000_000), 160, 0);
+        session.run_tapes(&C10, session.tier.of(240_000, 3_000_000), 160, 0);
     }
     session.finish(
         "type triples (A, B, C) from a universe closed under every constructor (scalars, (), any, !, arrays, 2-3-tuples, structs over 3 field names, functions of arity 0-2, mut, unions of 2-3) to depth 3 (quick) / 4 (thorough): B derived from A by widening steps (so A <= B is expected), by near-miss perturbation (missing struct field, widened parameter, changed mut content, tuple arity) or by narrowing, C from B; plus all ordered triples over a 34-type basis (exhaustive). Laws checked on the public API: reflexivity (also across two instances), ! <= T <= any, transitivity on chains the implementation affirmed, covariance of arrays/tuples/struct fields/results and contravariance of parameters as equivalences, struct width, mut invariance, union built with `|` in three insertion orders is an upper bound of each member, (A|B) <= C iff both, conjoin is a lower bound, and value soundness by semantic witness (a value of A that is certainly not a value of B whenever A matches B). Non-trivial = pair not decided by identity / any / ! alone; distinct by the triple's text.",
